@@ -153,8 +153,15 @@ class CliSim:
                 if cmd == 'clip':
                     g = clipsim.gen_geometry(rng, world)
                     form = rng.choice(['bounds', 'bounds', 'geojson_string', 'geojson_file', 'json_file'])
-                    inv.update({'geom': g, 'geom_form': form, 'out': out_name('.nc'),
-                                'work_dir': rng.choice([None, None, f'cliwork{len(lts)}_{len(invs)}'])})
+                    earlier = [i['work_dir'] for lt_ in lts for i in lt_['invocations'] if i.get('work_dir')] + [i['work_dir'] for i in invs if i.get('work_dir')]
+                    if earlier and rng.random() < 0.6:
+                        wd = rng.choice(earlier)      # the scratch directory of an earlier run, with whatever it left behind
+                    else:
+                        wd = rng.choice([None, None, f'cliwork{len(lts)}_{len(invs)}', 'cliwork_shared'])
+                    inv.update({'geom': g, 'geom_form': form, 'out': out_name('.nc'), 'work_dir': wd,
+                                # a second input with fewer variables: with a shared --work_dir an earlier run's
+                                # per-variable files for the dropped variables are still lying around
+                                'input': rng.choice(['full', 'full', 'small']) if len(world['vars']) > 1 else 'full'})
                     if form == 'bounds':
                         pts, bbox = clipsim.cell_points(world)
                         real = [p for p in pts if p is not None] or [(bbox[0], bbox[1])]
@@ -271,7 +278,7 @@ class CliSim:
             argv.append(inv['verbosity'])
         cmd = inv['cmd']
         argv.append(cmd)
-        input_path = inp
+        input_path = inp if inv.get('input', 'full') == 'full' else os.path.join(scratch, 'input_small.nc')
         if uf == 'missing_input':
             input_path = os.path.join(scratch, 'no_such_input.nc')
         elif uf == 'not_netcdf':
@@ -388,7 +395,8 @@ class CliSim:
             # each invocation that carries a crash fault ends its lifetime; split accordingly
             groups, cur = [], []
             for p in prepared:
-                if p['inv'].get('rerun') and cur:
+                shares = p['inv'].get('work_dir') and any(q['inv'].get('work_dir') == p['inv']['work_dir'] for q in cur)
+                if (p['inv'].get('rerun') or shares) and cur:
                     # the user's re-run is a new process (it shares --work_dir and the output path with the failed run)
                     groups.append(cur)
                     cur = []
@@ -546,6 +554,9 @@ def _geojson_of(wkt):
 def _setup_lifetime(ctx, world_spec, scratch):
     world = worldgen.World(world_spec)
     common.write_world_file(world, os.path.join(scratch, 'input.nc'))
+    if len(world_spec['vars']) > 1:
+        small = dict(world_spec, vars=world_spec['vars'][:1])
+        common.write_world_file(worldgen.World(small), os.path.join(scratch, 'input_small.nc'))
 
 
 class _TempfileShim:
